@@ -1186,3 +1186,105 @@ def ite(c, a, b):  # noqa: F811  (extends the scalar ite with SRoot / float64 op
         qb = b.q if isinstance(b, SRoot) else b * b
         return SRoot(_ite_plain(c, qa, qb))
     return _ite_plain(c, a, b)
+
+
+# --------------------------------------------------------------------------- second back end: cvc5 (QF_BVFP kernels)
+
+
+def _cvc5_run(smt, timeout_ms):
+    import cvc5
+    tm = cvc5.TermManager()
+    slv = cvc5.Solver(tm)
+    slv.setOption('tlimit-per', str(int(timeout_ms)))
+    slv.setOption('produce-models', 'true')
+    parser = cvc5.InputParser(slv)
+    parser.setStringInput(cvc5.InputLanguage.SMT_LIB_2_6, smt, 'query')
+    sm = parser.getSymbolManager()
+    outs = []
+    while True:
+        cmd = parser.nextCommand()
+        if cmd.isNull():
+            break
+        o = cmd.invoke(slv, sm)
+        if o.strip():
+            outs.append(o.strip())
+    return outs
+
+
+def _parse_cvc5_value(txt):
+    """'(fp #b0 #b... #b...)' / '#b...' / '#x...' / '(_ bvN 64)' -> python float / int (signed 64)."""
+    import re
+    import struct
+    txt = txt.strip()
+    m = re.match(r'\(fp\s+#b([01])\s+#b([01]+)\s+#b([01]+)\)', txt)
+    if m:
+        bits = int(m.group(1) + m.group(2) + m.group(3), 2)
+        return struct.unpack('>d', bits.to_bytes(8, 'big'))[0]
+    if txt.startswith('#b'):
+        v, w = int(txt[2:], 2), len(txt) - 2
+    elif txt.startswith('#x'):
+        v, w = int(txt[2:], 16), 4 * (len(txt) - 2)
+    else:
+        m = re.match(r'\(_\s+bv(\d+)\s+(\d+)\)', txt)
+        if not m:
+            if '+zero' in txt:
+                return 0.0
+            if '-zero' in txt:
+                return -0.0
+            raise Inconclusive(f'cannot parse cvc5 value {txt}')
+        v, w = int(m.group(1)), int(m.group(2))
+    return v - (1 << w) if v >= (1 << (w - 1)) else v
+
+
+def prove_cvc5(label, phi, given=(), timeout_ms=300000, detail=None):
+    """Obligation decided by cvc5 (python wheel) on an isolated query: declared domains of the variables that
+    occur + ``given`` + NOT phi, exported as SMT-LIB2.  unsat -> discharged; sat -> model read back, recorded as a
+    counterexample (replayed by the runner); anything else -> inconclusive."""
+    c = ctx()
+    p = z3.simplify(_bt(phi))
+    if z3.is_true(p):
+        return prove(label, True)
+    gs = [_bt(g) for g in given]
+    names = {}
+    _free_consts(p, names)
+    for g in gs:
+        _free_consts(g, names)
+    s = z3.Solver()
+    for n in names:
+        for b in c.bounds.get(n, []):
+            s.add(b)
+    s.add(*gs)
+    s.add(z3.Not(p))
+    smt = '(set-logic ALL)\n(set-option :produce-models true)\n' + s.to_smt2()
+    inputs = [n for n in c.inputs if n in names]
+    if inputs:
+        smt += '\n'.join(f'(get-value ({n}))' for n in inputs) + '\n'
+    t = time.time()
+    try:
+        outs = _cvc5_run(smt, timeout_ms)
+    except Exception as e:  # sat without model support etc.
+        outs = [f'error {e}']
+    dt = time.time() - t
+    c.stats['solver_calls'] += 1
+    c.stats['solver_s'] += dt
+    c.stats['max_query_s'] = max(c.stats['max_query_s'], dt)
+    c.stats['cvc5'] = c.stats.get('cvc5', 0) + 1
+    verdict = outs[0] if outs else 'unknown'
+    c.stats['obligations'] += 1
+    if verdict == 'unsat':
+        c.stats['unsat'] += 1
+        c.stats['discharged'] += 1
+        c.labels[label] = c.labels.get(label, 0) + 1
+        return True
+    if verdict == 'sat':
+        c.stats['sat'] += 1
+        vals = {}
+        for n, o in zip(inputs, outs[1:]):
+            inner = o.strip()[1:-1].strip()  # ((name value)) -> (name value)
+            inner = inner[1:-1].strip()
+            vals[n] = _parse_cvc5_value(inner[len(n):].strip())
+        full = {n: vals.get(n, 0) for n in c.inputs}
+        c.cex.append(dict(label=label, inputs=full))
+        raise StopExploration()
+    c.stats['unknown'] += 1
+    raise Inconclusive(f'cvc5 returned {verdict[:80]} after {dt:.1f}s on "{label}"')
